@@ -53,20 +53,20 @@ type PlugConf struct {
 }
 
 type ChainReq struct {
-	V6    bool   `json:"v6,omitempty"`
-	Hex   string `json:"hex"`
-	RxIf  int    `json:"rxif"`           // receive ifindex (-1: no control message)
+	V6       bool   `json:"v6,omitempty"`
+	Hex      string `json:"hex"`
+	RxIf     int    `json:"rxif"`                // receive ifindex (-1: no control message)
 	RxIfName string `json:"rxif_name,omitempty"` // resolved in the child's namespace, overrides RxIf
-	Peer  string `json:"peer,omitempty"` // source ip (port implied: relay 67 / client 68 / 546 / 547)
-	Port  int    `json:"port,omitempty"`
-	Async bool   `json:"async,omitempty"` // run concurrently with the following async requests
+	Peer     string `json:"peer,omitempty"`      // source ip (port implied: relay 67 / client 68 / 546 / 547)
+	Port     int    `json:"port,omitempty"`
+	Async    bool   `json:"async,omitempty"` // run concurrently with the following async requests
 	// Write, if set, rewrites a file under {DIR} with a single pwrite at offset 0
 	// (no truncation) before the datagram (if any) is handled.
 	Write *FileWrite `json:"write,omitempty"`
 	// Poll, if set, repeats the datagram until the reply contains Until (hex) or
 	// MaxPolls is reached; the result lists the distinct consecutive replies.
-	Poll *PollSpec `json:"poll,omitempty"`
-	SleepMs int    `json:"sleep_ms,omitempty"`
+	Poll    *PollSpec `json:"poll,omitempty"`
+	SleepMs int       `json:"sleep_ms,omitempty"`
 }
 
 type FileWrite struct {
@@ -92,23 +92,23 @@ type PollSpec struct {
 }
 
 type ChainJob struct {
-	V4      []PlugConf        `json:"v4,omitempty"`
-	V6      []PlugConf        `json:"v6,omitempty"`
-	HasV4   bool              `json:"has_v4"`
-	HasV6   bool              `json:"has_v6"`
-	Iface   string            `json:"iface,omitempty"` // bound interface ("" = unbound)
-	Files   map[string]string `json:"files,omitempty"` // created under {DIR} before setup
-	Symlinks map[string]string `json:"symlinks,omitempty"` // link name -> target, both under {DIR}
-	Reqs    []ChainReq        `json:"reqs"`
-	Pre     bool              `json:"pre,omitempty"` // record the in-memory response before it is serialised
-	Synth   []SynthPlugin     `json:"synth,omitempty"`
-	Via     string            `json:"via,omitempty"` // "" = plugins.LoadPlugins on a config value
-	YAML    string            `json:"yaml,omitempty"`  // if set: the configuration is this file, loaded with config.Load
-	LoadTwice bool            `json:"load_twice,omitempty"` // call LoadPlugins a second time on the same configuration object and use that result (synthetic plugins only: built-in ones keep globals)
-	Sniff   []string          `json:"sniff,omitempty"` // interfaces to sniff for link-level replies
-	FrameWaitUs int           `json:"frame_wait_us,omitempty"` // how long to wait for a frame when nothing was sent by UDP
-	LogHook bool              `json:"-"`
-	LogLevel string           `json:"log_level,omitempty"` // "" = info
+	V4          []PlugConf        `json:"v4,omitempty"`
+	V6          []PlugConf        `json:"v6,omitempty"`
+	HasV4       bool              `json:"has_v4"`
+	HasV6       bool              `json:"has_v6"`
+	Iface       string            `json:"iface,omitempty"`    // bound interface ("" = unbound)
+	Files       map[string]string `json:"files,omitempty"`    // created under {DIR} before setup
+	Symlinks    map[string]string `json:"symlinks,omitempty"` // link name -> target, both under {DIR}
+	Reqs        []ChainReq        `json:"reqs"`
+	Pre         bool              `json:"pre,omitempty"` // record the in-memory response before it is serialised
+	Synth       []SynthPlugin     `json:"synth,omitempty"`
+	Via         string            `json:"via,omitempty"`           // "" = plugins.LoadPlugins on a config value
+	YAML        string            `json:"yaml,omitempty"`          // if set: the configuration is this file, loaded with config.Load
+	LoadTwice   bool              `json:"load_twice,omitempty"`    // call LoadPlugins a second time on the same configuration object and use that result (synthetic plugins only: built-in ones keep globals)
+	Sniff       []string          `json:"sniff,omitempty"`         // interfaces to sniff for link-level replies
+	FrameWaitUs int               `json:"frame_wait_us,omitempty"` // how long to wait for a frame when nothing was sent by UDP
+	LogHook     bool              `json:"-"`
+	LogLevel    string            `json:"log_level,omitempty"` // "" = info
 }
 
 type CapRes struct {
@@ -119,48 +119,48 @@ type CapRes struct {
 }
 
 type ReqRes struct {
-	I    int               `json:"i"`
-	Caps []CapRes          `json:"caps"`
-	Frames []FrameRes      `json:"frames,omitempty"`
-	Pre4 map[string]string `json:"pre4,omitempty"` // option code -> hex value, of the response the last handler returned
-	Pre6 string            `json:"pre6,omitempty"` // hex of the in-memory response's ToBytes
-	PreNil bool            `json:"pre_nil,omitempty"`
-	Trace []SynthEvent     `json:"trace,omitempty"`
-	Ns   int64             `json:"ns"`
+	I      int               `json:"i"`
+	Caps   []CapRes          `json:"caps"`
+	Frames []FrameRes        `json:"frames,omitempty"`
+	Pre4   map[string]string `json:"pre4,omitempty"` // option code -> hex value, of the response the last handler returned
+	Pre6   string            `json:"pre6,omitempty"` // hex of the in-memory response's ToBytes
+	PreNil bool              `json:"pre_nil,omitempty"`
+	Trace  []SynthEvent      `json:"trace,omitempty"`
+	Ns     int64             `json:"ns"`
 	// for Poll: the sequence of distinct consecutive first-reply payloads ("" = no reply), and the number of polls
-	PollSeq []string `json:"poll_seq,omitempty"`
-	Polls   int      `json:"polls,omitempty"`
-	Matched bool     `json:"matched,omitempty"`
-	WriteErr string  `json:"write_err,omitempty"`
-	NilNoStop []int  `json:"nil_no_stop,omitempty"` // handlers that returned (nil, false)
-	OversizeOpts []int `json:"oversize_opts,omitempty"` // DHCPv6 options of the in-memory response whose encoding exceeds 65535 bytes
-	Burst *BurstRes  `json:"burst,omitempty"`
+	PollSeq      []string  `json:"poll_seq,omitempty"`
+	Polls        int       `json:"polls,omitempty"`
+	Matched      bool      `json:"matched,omitempty"`
+	WriteErr     string    `json:"write_err,omitempty"`
+	NilNoStop    []int     `json:"nil_no_stop,omitempty"`   // handlers that returned (nil, false)
+	OversizeOpts []int     `json:"oversize_opts,omitempty"` // DHCPv6 options of the in-memory response whose encoding exceeds 65535 bytes
+	Burst        *BurstRes `json:"burst,omitempty"`
 }
 
 // BurstRes reports a group of consecutive async requests handled concurrently,
 // one goroutine per datagram (the Serve path, buffers from the server's pool).
 type BurstRes struct {
-	N             int      `json:"n"`
-	Call          []int64  `json:"call"` // ns since process start, taken outside the server
-	Ret           []int64  `json:"ret"`
-	BufID         []uint64 `json:"buf_id"`          // identity of the pool buffer that carried datagram k
-	ReuseInFlight int      `json:"reuse_in_flight"` // datagrams that got a buffer still used by an unfinished handler's datagram
-	Caps          []CapRes `json:"caps"`
+	N             int        `json:"n"`
+	Call          []int64    `json:"call"` // ns since process start, taken outside the server
+	Ret           []int64    `json:"ret"`
+	BufID         []uint64   `json:"buf_id"`          // identity of the pool buffer that carried datagram k
+	ReuseInFlight int        `json:"reuse_in_flight"` // datagrams that got a buffer still used by an unfinished handler's datagram
+	Caps          []CapRes   `json:"caps"`
 	Frames        []FrameRes `json:"frames,omitempty"`
 }
 
 type ChainOut struct {
-	SetupErr  string   `json:"setup_err,omitempty"`
-	SetupOK   bool     `json:"setup_ok"`
-	N4, N6    int      // number of handlers loaded
-	Res       []ReqRes `json:"res"`
-	Died      bool     `json:"died"`
-	DiedAt    int      `json:"died_at"` // request index being handled (-1: during setup)
-	Exit      string   `json:"exit"`
-	Stderr    string   `json:"stderr"`
-	TimedOut  bool     `json:"timed_out"`
+	SetupErr       string   `json:"setup_err,omitempty"`
+	SetupOK        bool     `json:"setup_ok"`
+	N4, N6         int      // number of handlers loaded
+	Res            []ReqRes `json:"res"`
+	Died           bool     `json:"died"`
+	DiedAt         int      `json:"died_at"` // request index being handled (-1: during setup)
+	Exit           string   `json:"exit"`
+	Stderr         string   `json:"stderr"`
+	TimedOut       bool     `json:"timed_out"`
 	NilNoStopEarly []string `json:"nil_no_stop_early,omitempty"` // "v4 handler #2": streamed the moment it happened
-	Completed bool     `json:"completed"`
+	Completed      bool     `json:"completed"`
 }
 
 var builtinPlugins = []*plugins.Plugin{
